@@ -53,3 +53,302 @@ package model
 //@ func (*MethodEntry).Recv(m) (r)
 //@   requires wfMethod(m)
 //@   use T3(refOf(m.Method))
+
+// ---- expression nodes (C02, C01, C06, C07) --------------------------------------------------------------------------
+
+//@ spec otherNodeText(n Node) string
+//@ spec otherNodeType(n Node) types.Type
+//@ spec otherNodeBool(n Node) bool
+//@ spec otherNodeParent(n Node) Node
+//@ spec fnRes0(m *types.Func) types.Type = typeOfObj(tupleAt(sigResults(as(typeOfObj(m), *types.Signature)), 0))
+//@ spec fnNRes(m *types.Func) int = tupleLen(sigResults(as(typeOfObj(m), *types.Signature)))
+//@
+//@ spec wfNode(n Node) bool = n != nil &&
+//@     cond(is(n, RootNode), as(n, RootNode).typ != nil,
+//@     cond(is(n, ScalarNode), as(n, ScalarNode).typ != nil && (as(n, ScalarNode).parent == nil || wfNode(as(n, ScalarNode).parent)),
+//@     cond(is(n, StructFieldNode), as(n, StructFieldNode).field != nil && wfNode(as(n, StructFieldNode).parent),
+//@     cond(is(n, StructMethodNode), as(n, StructMethodNode).method != nil && fnNRes(as(n, StructMethodNode).method) >= 1 && wfNode(as(n, StructMethodNode).container),
+//@     cond(is(n, TypecastEntry), as(n, TypecastEntry).typ != nil && wfNode(as(n, TypecastEntry).inner),
+//@     cond(is(n, StringerEntry), wfNode(as(n, StringerEntry).inner),
+//@     cond(is(n, ConverterNode), as(n, ConverterNode).converter != nil && as(n, ConverterNode).converter.retType != nil && as(n, ConverterNode).converter.argType != nil && wfNode(as(n, ConverterNode).arg),
+//@          false)))))))
+//@
+//@ spec assignExpr(n Node) string =
+//@     cond(is(n, RootNode), as(n, RootNode).name,
+//@     cond(is(n, ScalarNode), cond(as(n, ScalarNode).parent != nil, assignExpr(as(n, ScalarNode).parent), as(n, ScalarNode).name),
+//@     cond(is(n, StructFieldNode), assignExpr(as(n, StructFieldNode).parent) + "." + nameOf(as(n, StructFieldNode).field),
+//@     cond(is(n, StructMethodNode), assignExpr(as(n, StructMethodNode).container) + "." + nameOf(as(n, StructMethodNode).method) + "()",
+//@     cond(is(n, TypecastEntry), as(n, TypecastEntry).expr + "(" + assignExpr(as(n, TypecastEntry).inner) + ")",
+//@     cond(is(n, StringerEntry), assignExpr(as(n, StringerEntry).inner) + ".String()",
+//@     cond(is(n, ConverterNode), as(n, ConverterNode).converter.converter + "(" +
+//@          cond(!isPtrT(exprType(as(n, ConverterNode).arg)) && isPtrT(as(n, ConverterNode).converter.argType), "&", "") +
+//@          assignExpr(as(n, ConverterNode).arg) + ")",
+//@          otherNodeText(n))))))))
+//@ spec matcherExpr(n Node) string =
+//@     cond(is(n, RootNode), "",
+//@     cond(is(n, ScalarNode), cond(as(n, ScalarNode).parent != nil, matcherExpr(as(n, ScalarNode).parent), ""),
+//@     cond(is(n, StructFieldNode), cond(matcherExpr(as(n, StructFieldNode).parent) == "", nameOf(as(n, StructFieldNode).field),
+//@                                       matcherExpr(as(n, StructFieldNode).parent) + "." + nameOf(as(n, StructFieldNode).field)),
+//@     cond(is(n, StructMethodNode), cond(matcherExpr(as(n, StructMethodNode).container) == "", nameOf(as(n, StructMethodNode).method) + "()",
+//@                                        matcherExpr(as(n, StructMethodNode).container) + "." + nameOf(as(n, StructMethodNode).method) + "()"),
+//@     cond(is(n, TypecastEntry), matcherExpr(as(n, TypecastEntry).inner),
+//@     cond(is(n, StringerEntry), matcherExpr(as(n, StringerEntry).inner),
+//@     cond(is(n, ConverterNode), matcherExpr(as(n, ConverterNode).arg), otherNodeText(n))))))))
+//@ spec exprType(n Node) types.Type =
+//@     cond(is(n, RootNode), as(n, RootNode).typ,
+//@     cond(is(n, ScalarNode), as(n, ScalarNode).typ,
+//@     cond(is(n, StructFieldNode), typeOfObj(as(n, StructFieldNode).field),
+//@     cond(is(n, StructMethodNode), fnRes0(as(n, StructMethodNode).method),
+//@     cond(is(n, TypecastEntry), as(n, TypecastEntry).typ,
+//@     cond(is(n, StringerEntry), stringTypeOf(),
+//@     cond(is(n, ConverterNode), as(n, ConverterNode).converter.retType, otherNodeType(n))))))))
+//@ spec objNameOf(n Node) string =
+//@     cond(is(n, RootNode), as(n, RootNode).name,
+//@     cond(is(n, ScalarNode), as(n, ScalarNode).name,
+//@     cond(is(n, StructFieldNode), nameOf(as(n, StructFieldNode).field),
+//@     cond(is(n, StructMethodNode), nameOf(as(n, StructMethodNode).method),
+//@     cond(is(n, TypecastEntry), objNameOf(as(n, TypecastEntry).inner),
+//@     cond(is(n, StringerEntry), objNameOf(as(n, StringerEntry).inner),
+//@     cond(is(n, ConverterNode), objNameOf(as(n, ConverterNode).arg), otherNodeText(n))))))))
+//@ spec parentOf(n Node) Node =
+//@     cond(is(n, RootNode), nil,
+//@     cond(is(n, ScalarNode), as(n, ScalarNode).parent,
+//@     cond(is(n, StructFieldNode), as(n, StructFieldNode).parent,
+//@     cond(is(n, StructMethodNode), as(n, StructMethodNode).container,
+//@     cond(is(n, TypecastEntry), parentOf(as(n, TypecastEntry).inner),
+//@     cond(is(n, StringerEntry), parentOf(as(n, StringerEntry).inner),
+//@     cond(is(n, ConverterNode), parentOf(as(n, ConverterNode).arg), otherNodeParent(n))))))))
+//@ spec returnsError(n Node) bool =
+//@     cond(is(n, StructMethodNode), fnNRes(as(n, StructMethodNode).method) == 2,
+//@     cond(is(n, ConverterNode), as(n, ConverterNode).converter.retError,
+//@     cond(is(n, RootNode) || is(n, ScalarNode) || is(n, StructFieldNode) || is(n, TypecastEntry) || is(n, StringerEntry), false,
+//@          otherNodeBool(n))))
+//@
+//@ iface (Node).AssignExpr = assignExpr requires wfNode
+//@ iface (Node).MatcherExpr = matcherExpr requires wfNode
+//@ iface (Node).ExprType = exprType requires wfNode
+//@ iface (Node).ObjName = objNameOf requires wfNode
+//@ iface (Node).Parent = parentOf requires wfNode
+//@ iface (Node).ReturnsError = returnsError requires wfNode
+//@ spec objNullable(n Node) bool =
+//@     cond(is(n, RootNode), isPtrT(as(n, RootNode).typ),
+//@     cond(is(n, ScalarNode), isPtrT(as(n, ScalarNode).typ),
+//@     cond(is(n, StructFieldNode), isPtrT(typeOfObj(as(n, StructFieldNode).field)),
+//@     cond(is(n, StructMethodNode), isPtrT(fnRes0(as(n, StructMethodNode).method)),
+//@     cond(is(n, TypecastEntry), objNullable(as(n, TypecastEntry).inner),
+//@     cond(is(n, StringerEntry), objNullable(as(n, StringerEntry).inner),
+//@     cond(is(n, ConverterNode), objNullable(as(n, ConverterNode).arg), otherNodeBool(n))))))))
+//@ spec nullCheckExpr(n Node) string =
+//@     cond(is(n, RootNode), as(n, RootNode).name,
+//@     cond(is(n, ScalarNode), cond(as(n, ScalarNode).parent != nil, nullCheckExpr(as(n, ScalarNode).parent), as(n, ScalarNode).name),
+//@     cond(is(n, StructFieldNode), assignExpr(as(n, StructFieldNode).parent) + "." + nameOf(as(n, StructFieldNode).field),
+//@     cond(is(n, StructMethodNode), assignExpr(as(n, StructMethodNode).container) + "." + nameOf(as(n, StructMethodNode).method) + "()",
+//@     cond(is(n, TypecastEntry), nullCheckExpr(as(n, TypecastEntry).inner),
+//@     cond(is(n, StringerEntry), nullCheckExpr(as(n, StringerEntry).inner),
+//@     cond(is(n, ConverterNode), assignExpr(n), otherNodeText(n))))))))
+//@ iface (Node).ObjNullable = objNullable requires wfNode
+//@ iface (Node).NullCheckExpr = nullCheckExpr requires wfNode
+//@
+//@ func (RootNode).AssignExpr(n) (r)
+//@   requires wfNode(box(n))
+//@   ensures {C02,C01,C06} r == assignExpr(box(n))
+//@ func (RootNode).MatcherExpr(n) (r)
+//@   requires wfNode(box(n))
+//@   ensures {C06} r == matcherExpr(box(n))
+//@ func (RootNode).ExprType(n) (r)
+//@   requires wfNode(box(n))
+//@   ensures {C04,C01} r == exprType(box(n))
+//@ func (RootNode).ObjName(n) (r)
+//@   requires wfNode(box(n))
+//@   ensures {C04} r == objNameOf(box(n))
+//@ func (RootNode).Parent(n) (r)
+//@   requires wfNode(box(n))
+//@   ensures {C06} r == parentOf(box(n))
+//@ func (RootNode).ReturnsError(n) (r)
+//@   requires wfNode(box(n))
+//@   ensures {C07} r == returnsError(box(n))
+//@ func (RootNode).ObjNullable(n) (r)
+//@   requires wfNode(box(n))
+//@   ensures {C02} r == objNullable(box(n))
+//@ func (RootNode).NullCheckExpr(n) (r)
+//@   requires wfNode(box(n))
+//@   ensures {C02} r == nullCheckExpr(box(n))
+//@ func (ScalarNode).AssignExpr(n) (r)
+//@   requires wfNode(box(n))
+//@   ensures {C02,C01,C06} r == assignExpr(box(n))
+//@ func (ScalarNode).MatcherExpr(n) (r)
+//@   requires wfNode(box(n))
+//@   ensures {C06} r == matcherExpr(box(n))
+//@ func (ScalarNode).ExprType(n) (r)
+//@   requires wfNode(box(n))
+//@   ensures {C04,C01} r == exprType(box(n))
+//@ func (ScalarNode).ObjName(n) (r)
+//@   requires wfNode(box(n))
+//@   ensures {C04} r == objNameOf(box(n))
+//@ func (ScalarNode).Parent(n) (r)
+//@   requires wfNode(box(n))
+//@   ensures {C06} r == parentOf(box(n))
+//@ func (ScalarNode).ReturnsError(n) (r)
+//@   requires wfNode(box(n))
+//@   ensures {C07} r == returnsError(box(n))
+//@ func (ScalarNode).ObjNullable(n) (r)
+//@   requires wfNode(box(n))
+//@   ensures {C02} r == objNullable(box(n))
+//@ func (ScalarNode).NullCheckExpr(n) (r)
+//@   requires wfNode(box(n))
+//@   ensures {C02} r == nullCheckExpr(box(n))
+//@ func (ConverterNode).AssignExpr(n) (r)
+//@   requires wfNode(box(n))
+//@   ensures {C02,C01,C06} r == assignExpr(box(n))
+//@ func (ConverterNode).MatcherExpr(n) (r)
+//@   requires wfNode(box(n))
+//@   ensures {C06} r == matcherExpr(box(n))
+//@ func (ConverterNode).ExprType(n) (r)
+//@   requires wfNode(box(n))
+//@   ensures {C04,C01} r == exprType(box(n))
+//@ func (ConverterNode).ObjName(n) (r)
+//@   requires wfNode(box(n))
+//@   ensures {C04} r == objNameOf(box(n))
+//@ func (ConverterNode).Parent(n) (r)
+//@   requires wfNode(box(n))
+//@   ensures {C06} r == parentOf(box(n))
+//@ func (ConverterNode).ReturnsError(n) (r)
+//@   requires wfNode(box(n))
+//@   ensures {C07} r == returnsError(box(n))
+//@ func (ConverterNode).ObjNullable(n) (r)
+//@   requires wfNode(box(n))
+//@   ensures {C02} r == objNullable(box(n))
+//@ func (ConverterNode).NullCheckExpr(n) (r)
+//@   requires wfNode(box(n))
+//@   ensures {C02} r == nullCheckExpr(box(n))
+//@ func (TypecastEntry).AssignExpr(n) (r)
+//@   requires wfNode(box(n))
+//@   ensures {C02,C01,C06} r == assignExpr(box(n))
+//@ func (TypecastEntry).MatcherExpr(n) (r)
+//@   requires wfNode(box(n))
+//@   ensures {C06} r == matcherExpr(box(n))
+//@ func (TypecastEntry).ExprType(n) (r)
+//@   requires wfNode(box(n))
+//@   ensures {C04,C01} r == exprType(box(n))
+//@ func (TypecastEntry).ObjName(n) (r)
+//@   requires wfNode(box(n))
+//@   ensures {C04} r == objNameOf(box(n))
+//@ func (TypecastEntry).Parent(n) (r)
+//@   requires wfNode(box(n))
+//@   ensures {C06} r == parentOf(box(n))
+//@ func (TypecastEntry).ReturnsError(n) (r)
+//@   requires wfNode(box(n))
+//@   ensures {C07} r == returnsError(box(n))
+//@ func (TypecastEntry).ObjNullable(n) (r)
+//@   requires wfNode(box(n))
+//@   ensures {C02} r == objNullable(box(n))
+//@ func (TypecastEntry).NullCheckExpr(n) (r)
+//@   requires wfNode(box(n))
+//@   ensures {C02} r == nullCheckExpr(box(n))
+//@ func (StringerEntry).AssignExpr(n) (r)
+//@   requires wfNode(box(n))
+//@   ensures {C02,C01,C06} r == assignExpr(box(n))
+//@ func (StringerEntry).MatcherExpr(n) (r)
+//@   requires wfNode(box(n))
+//@   ensures {C06} r == matcherExpr(box(n))
+//@ func (StringerEntry).ExprType(n) (r)
+//@   requires wfNode(box(n))
+//@   use T10()
+//@   ensures {C04,C01} r == exprType(box(n))
+//@ func (StringerEntry).ObjName(n) (r)
+//@   requires wfNode(box(n))
+//@   ensures {C04} r == objNameOf(box(n))
+//@ func (StringerEntry).Parent(n) (r)
+//@   requires wfNode(box(n))
+//@   ensures {C06} r == parentOf(box(n))
+//@ func (StringerEntry).ReturnsError(n) (r)
+//@   requires wfNode(box(n))
+//@   ensures {C07} r == returnsError(box(n))
+//@ func (StringerEntry).ObjNullable(n) (r)
+//@   requires wfNode(box(n))
+//@   ensures {C02} r == objNullable(box(n))
+//@ func (StringerEntry).NullCheckExpr(n) (r)
+//@   requires wfNode(box(n))
+//@   ensures {C02} r == nullCheckExpr(box(n))
+//@ func (StructFieldNode).AssignExpr(n) (r)
+//@   requires wfNode(box(n))
+//@   ensures {C02,C01,C06} r == assignExpr(box(n))
+//@ func (StructFieldNode).MatcherExpr(n) (r)
+//@   requires wfNode(box(n))
+//@   ensures {C06} r == matcherExpr(box(n))
+//@ func (StructFieldNode).ExprType(n) (r)
+//@   requires wfNode(box(n))
+//@   ensures {C04,C01} r == exprType(box(n))
+//@ func (StructFieldNode).ObjName(n) (r)
+//@   requires wfNode(box(n))
+//@   ensures {C04} r == objNameOf(box(n))
+//@ func (StructFieldNode).Parent(n) (r)
+//@   requires wfNode(box(n))
+//@   ensures {C06} r == parentOf(box(n))
+//@ func (StructFieldNode).ReturnsError(n) (r)
+//@   requires wfNode(box(n))
+//@   ensures {C07} r == returnsError(box(n))
+//@ func (StructFieldNode).ObjNullable(n) (r)
+//@   requires wfNode(box(n))
+//@   ensures {C02} r == objNullable(box(n))
+//@ func (StructFieldNode).NullCheckExpr(n) (r)
+//@   requires wfNode(box(n))
+//@   ensures {C02} r == nullCheckExpr(box(n))
+//@ func (StructMethodNode).AssignExpr(n) (r)
+//@   requires wfNode(box(n))
+//@   use T3(n.method)
+//@   ensures {C02,C01,C06} r == assignExpr(box(n))
+//@ func (StructMethodNode).MatcherExpr(n) (r)
+//@   requires wfNode(box(n))
+//@   use T3(n.method)
+//@   ensures {C06} r == matcherExpr(box(n))
+//@ func (StructMethodNode).ExprType(n) (r)
+//@   requires wfNode(box(n))
+//@   use T3(n.method)
+//@   ensures {C04,C01} r == exprType(box(n))
+//@ func (StructMethodNode).ObjName(n) (r)
+//@   requires wfNode(box(n))
+//@   use T3(n.method)
+//@   ensures {C04} r == objNameOf(box(n))
+//@ func (StructMethodNode).Parent(n) (r)
+//@   requires wfNode(box(n))
+//@   use T3(n.method)
+//@   ensures {C06} r == parentOf(box(n))
+//@ func (StructMethodNode).ReturnsError(n) (r)
+//@   requires wfNode(box(n))
+//@   use T3(n.method)
+//@   ensures {C07} r == returnsError(box(n))
+//@ func (StructMethodNode).ObjNullable(n) (r)
+//@   requires wfNode(box(n))
+//@   use T3(n.method)
+//@   ensures {C02} r == objNullable(box(n))
+//@ func (StructMethodNode).NullCheckExpr(n) (r)
+//@   requires wfNode(box(n))
+//@   use T3(n.method)
+//@   ensures {C02} r == nullCheckExpr(box(n))
+//@
+//@ func NewRootNode(name, typ) (r)
+//@   ensures {C02} r.name == name && r.typ == typ
+//@ func NewStructFieldNode(container, field) (r)
+//@   ensures {C02,C04} r.parent == container && r.field == field
+//@ func NewStructMethodNode(container, method) (r)
+//@   ensures {C02,C04} r.container == container && r.method == method
+//@ func NewConverterNode(arg, converter) (r)
+//@   ensures {C06,C07} r == box(ConverterNode{arg: arg, converter: converter})
+//@ func NewStringer(inner) (r)
+//@   ensures {C04} r == box(StringerEntry{inner: inner})
+//@
+//@ spec baseCast(sc *types.Scope, i util.ImportNames, d types.Type) string =
+//@     cond(is(d, *types.Named),
+//@          cond(pkgOfObj(namedObj(as(d, *types.Named))) == nil || scopeLookup(sc, nameOf(namedObj(as(d, *types.Named)))) != nil, nameOf(namedObj(as(d, *types.Named))),
+//@          cond(has(i, pkgPath(pkgOfObj(namedObj(as(d, *types.Named))))), i[pkgPath(pkgOfObj(namedObj(as(d, *types.Named))))] + "." + nameOf(namedObj(as(d, *types.Named))),
+//@               pkgName(pkgOfObj(namedObj(as(d, *types.Named)))) + "." + nameOf(namedObj(as(d, *types.Named))))),
+//@          basicName(as(d, *types.Basic)))
+//@ spec castExpr(sc *types.Scope, i util.ImportNames, t types.Type) string =
+//@     cond(isPtrT(t), "(*" + baseCast(sc, i, derefT(t)) + ")", baseCast(sc, i, derefT(t)))
+//@
+//@ func NewTypecast(scope, imports, t, inner) (r, ok)
+//@   requires scope != nil && t != nil
+//@   ensures {C04,C01} ok == (is(derefT(t), *types.Named) || is(derefT(t), *types.Basic))
+//@   ensures {C04,C01,C02} ok ==> r == box(TypecastEntry{inner: inner, typ: t, expr: castExpr(scope, imports, t)})
+//@   ensures !ok ==> r == nil
